@@ -184,8 +184,10 @@ Fixpoint vec_remove {A} (idx : nat) (l : list A) : option (A * list A) :=
                    end
   end.
 
-(** The test is on the WORD only (the separator is ignored: a quoted [<] counts). *)
-Definition word_is (w : str) (t : tok) : bool := str_eqb (snd t) w.
+(** [x.0.is_empty() && x.1 == w]: an unquoted token whose word is [w]
+    (since /repo ea20a23 a quoted [<] is an ordinary argument). *)
+Definition word_is (w : str) (t : tok) : bool :=
+  match fst t with [] => str_eqb (snd t) w | _ => false end.
 Definition is_from_tok (t : tok) : bool := word_is s_lt t || word_is s_lt3 t.
 
 (** State of the while loop: tokens_new, len, redirects_from_type, redirects_from_value. *)
